@@ -301,7 +301,7 @@ class BinaryOp(Expression):
         "-": np.subtract,
         "*": np.multiply,
         "/": np.divide,
-        "**": np.power,
+        "**": np.float_power,
     }
 
     def __init__(
